@@ -12,7 +12,7 @@ from harness import fw, gen_deps
 META = {
     "technique": "Coq proofs about a verified acyclicity test (sink removal), a Gallina mirror of the greedy ordering loop and a Gallina mirror of _find_cycles (Tarjan) + differential correspondence with dependency_checker.py on random graphs, random orderings and generated/corpus modules",
     "level_text": "Machine-checked theorems (Coq 8.16, no axioms), for every finite graph / field list: acyclic_dec decides 'no node reaches itself by >=1 edge' (acyclic_dec_spec); the ordering loop returns a permutation of the fields (order_perm) in which every field follows the fields it mentions (order_respects_deps), returns source order when that is valid (order_stable) and never fails or runs out of fuel n+1 on locally acyclic inputs (order_defined); the Tarjan mirror of _find_cycles raises no error, needs fuel |g|+1 at most, and reports no component iff the graph is acyclic (tarjan_verdict, tarjan_none_iff_acyclic: both directions; tarjan_agrees_with_acyclic_dec). Tie, re-checked each run: the compiler's cycle verdict and reported components on generated multi-file modules and on thousands of random graphs equal the models' results and an independent SCC computation; fields_in_dependency_order of every accepted structure equals the model's order on the dependency lists the pass itself used; an independent walk of the IR confirms the three order clauses on the real output.",
-    "level_note": "Trusted: Coq kernel + vm_compute; harness/props/c15.py (graph numbering, capture of the pass's inputs); generator coverage (histogram). Not proved: that each *reported* component of the Tarjan mirror is a strongly connected component (checked by correspondence with an independent SCC computation only); Python recursion depth (a dependency chain longer than the interpreter's recursion limit raises RecursionError; the model's fuel is unbounded).",
+    "level_note": "Trusted: Coq kernel + vm_compute; harness/props/c15.py (graph numbering, capture of the pass's inputs); generator coverage (histogram). Also proved on the Tarjan mirror: every reported component is a strongly connected component containing a cycle, every node on a cycle is reported, exactly once (tarjan_components_are_sccs, tarjan_reports_each_scc_once); and for the ordering loop its exact greedy specification, uniqueness, placement of delayed fields and stability (order_greedy_spec, order_greedy_unique, order_stable_moves, order_stability); the literal 'every moved field sits immediately after its last dependency' is refuted by a witness (order_moves_refuted, corpus/C15/ordering_two_waiting.json). Not modelled: Python recursion depth (a dependency chain longer than the interpreter's recursion limit raises RecursionError; the model's fuel is unbounded).",
 }
 
 HEADER = ("Require Import EmbossV.Deps.Graph EmbossV.Deps.Kahn EmbossV.Deps.Order "
@@ -694,7 +694,7 @@ def run(ctx):
                        "node labels are compared by identity of their hashable form (module file, object path)",
                        "Python's recursion limit is not modelled: the mirror has fuel |graph|+1, the interpreter about 1000 frames"]
     ctx.audit()
-    ctx.check_theorems("EmbossV.Deps.Properties_C15", "Deps/Properties_C15.v", expect_min=8)
+    ctx.check_theorems("EmbossV.Deps.Properties_C15", "Deps/Properties_C15.v", expect_min=15)
 
     phases = ctx.extra.setdefault("phase_s", {})
     t_ph = [time.time()]
